@@ -47,3 +47,31 @@ Definition run_case32 (N origin : Z) (progs : list (list op)) (sched : list nat)
 Definition run_caseZ (N : Z) (progs : list (list op)) (sched : list nat) : list Z :=
   let '(s, lines) := run N idz idz init (progs_of progs) sched in
   concat lines ++ [9; head s; tail s; etail s; dhead s].
+
+(* ---- the same runner for the full-sync ring *)
+From RM Require Import FullSync.
+Definition femit (before after : list (nat * res)) : list (list Z) :=
+  map (fun e => 2 :: Z.of_nat (fst e) :: res_code (snd e)) (skipn (length before) after).
+Definition fgrant (N : Z) (s : fsst) (progs : nat -> list op) (t : nat) : fsst * (nat -> list op) * list (list Z) :=
+  match fthr s t with
+  | FIdle =>
+      match progs t with
+      | [] => (s, progs, [skip t])
+      | o :: rest =>
+          let s1 := fstart s t o in
+          let s2 := fstep N u32 s1 t in
+          (s2, upd progs t rest, fobs s1 t :: femit (flog s1) (flog s2))
+      end
+  | _ => let s2 := fstep N u32 s t in (s2, progs, fobs s t :: femit (flog s) (flog s2))
+  end.
+Fixpoint frun (N : Z) (s : fsst) (progs : nat -> list op) (sched : list nat) : fsst * list (list Z) :=
+  match sched with
+  | [] => (s, [])
+  | t :: rest =>
+      let '(s1, progs1, lines) := fgrant N s progs t in
+      let '(s2, more) := frun N s1 progs1 rest in
+      (s2, lines ++ more)
+  end.
+Definition run_case_fs32 (N origin : Z) (progs : list (list op)) (sched : list nat) : list Z :=
+  let '(s, lines) := frun N (finit_at (u32 origin)) (progs_of progs) sched in
+  concat lines ++ [9; fhead s; ftail s; if flock s then 1 else 0].
